@@ -93,6 +93,25 @@ func (x *c03ctx) checkDestCaps(d ng.Dest) {
 func runC03(cfg *vc.Config, rep *vc.Report) {
 	cfg.Cases(40000, 3000000, func(i int, r *vc.Rand) {
 		c := ng.Generate(r, ng.SingleCfg())
+		// follow-up (one case in three): a second statement sends *everything* one of the first send's source accounts still
+		// holds. "[ASSET *] moves exactly everything its sources can provide" then also says that what the first send took,
+		// kept and gave back is what the machine remembers.
+		followX, followAsset := "", ""
+		if r.Chance(1, 3) {
+			if b0 := ng.Bind(c.Prog, c.World); b0 != nil {
+				sd0 := c.Prog.Stmts[0].(ng.Send)
+				var cands []string
+				for _, a := range b0.SourceAccounts(sd0.Src) {
+					if a != "world" {
+						cands = append(cands, a)
+					}
+				}
+				if len(cands) > 0 {
+					followX, followAsset = vc.Pick(r, cands), b0.SendAsset(sd0)
+					c.Prog.Stmts = append(c.Prog.Stmts, ng.Send{AllAsset: ng.LitAsset{Name: followAsset}, Src: ng.SrcAccount{Acc: ng.LitAccount{Addr: followX}}, Dst: ng.DestAccount{Acc: ng.LitAccount{Addr: "c03sink"}}})
+				}
+			}
+		}
 		text := c.Prog.String()
 		rep.Current(map[string]any{"index": i, "script": text, "vars": c.World.Vars})
 		rep.Eval()
@@ -116,6 +135,54 @@ func runC03(cfg *vc.Config, rep *vc.Report) {
 			return
 		}
 		sd := c.Prog.Stmts[0].(ng.Send)
+		var second []ng.Posting
+		if followX != "" {
+			var firstPs []ng.Posting
+			for _, p := range real.Postings {
+				if p.Dst == "c03sink" {
+					second = append(second, p)
+				} else {
+					firstPs = append(firstPs, p)
+				}
+			}
+			real.Postings = firstPs
+			defer func() {
+				// what X holds after the first send, by the postings the machine itself emitted
+				bal := new(big.Int)
+				if v := c.World.Balances[followX][followAsset]; v != nil {
+					bal.Set(v)
+				}
+				for _, p := range firstPs {
+					if p.Asset != followAsset {
+						continue
+					}
+					if p.Src == followX {
+						bal.Sub(bal, p.Amt)
+					}
+					if p.Dst == followX {
+						bal.Add(bal, p.Amt)
+					}
+				}
+				if bal.Sign() < 0 {
+					bal.SetInt64(0)
+				}
+				moved := new(big.Int)
+				for _, p := range second {
+					if p.Src != followX || p.Asset != followAsset || p.Amt.Sign() < 0 {
+						rep.Violate("follow-up-send-all:unexpected-posting", p.String(), i, dump(i, c, text, &ref, &real))
+						return
+					}
+					moved.Add(moved, p.Amt)
+				}
+				rep.Inc("follow_up_send_all_checked")
+				if bal.Sign() > 0 {
+					rep.Inc("follow_up_send_all_nonzero")
+				}
+				if moved.Cmp(bal) != 0 {
+					rep.Violate("follow-up-send-all-differs", fmt.Sprintf("after the first send %s holds %s %s (by the postings emitted), the following send [%s *] from it moved %s", followX, bal, followAsset, followAsset, moved), i, dump(i, c, text, &ref, &real))
+				}
+			}()
+		}
 		x := &c03ctx{b: b, asset: b.SendAsset(sd), out: map[string]*big.Int{}, in: map[string]*big.Int{}}
 		nviol := 0
 		x.report = func(rule, detail string) {
